@@ -134,3 +134,172 @@ func runSaveWindow(e *core.Env) {
 		}
 	})
 }
+
+func init() {
+	core.Register("C08", "opwindow", runOpWindow)
+}
+
+// runOpWindow: hook-directed schedules of two conflicting operations. Operation A is parked at its hook point between
+// updating the manager's own records (what the API lists and what is saved) and publishing to the live lookup maps
+// (what new sessions are accepted against); a conflicting operation B on the same user or key is started while A sits
+// there. Whatever order the two take effect in, once both have returned the API listing and the keys accepted by real
+// handshakes must be the same set. (Real clock: a mutex wait is not a durable block for a synctest bubble. The pause
+// only widens the window; the verdict is the final comparison.)
+func runOpWindow(e *core.Env) {
+	rec := e.Rec
+	rec.Rule("opwindow: one case = (store mode, key size, operation A in {delete, update, add, reload} parked at its before-live hook, conflicting operation B in {add same user+key, reload of a file that still holds the user, update to another key, delete} started meanwhile, pause 1-30 ms); after both returned: API listing == keys accepted by real TCP/UDP handshakes; after stop: file == listing; class = (A, B, mode, hook reached, B finished inside the window)")
+	type pair struct{ a, b string }
+	pairs := []pair{{"delete", "add-same"}, {"delete", "reload-old"}, {"update", "update-other"}, {"update", "delete"}, {"add", "delete"}, {"add", "update"}, {"reload", "add-same"}, {"reload", "delete"}, {"delete", "update"}}
+	n := e.N(90, 2400)
+	core.Parallel(e, "opwindow", n, 1, func(i int) {
+		r := core.NewRNG(e.Seed, "c08.opwindow", i)
+		pr := pairs[i%len(pairs)]
+		rec.Begin("opwindow", i, pr.a+" || "+pr.b)
+		rec.Eval()
+		dir := filepath.Join(e.WorkDir, fmt.Sprintf("ow-%d", i))
+		defer os.RemoveAll(dir)
+		w, err := newWorld(e, r, dir, map[string]int{"alice": 0, "bob": 1})
+		if err != nil {
+			core.Fatalf("world: %v", err)
+		}
+		stopped := false
+		defer func() {
+			if !stopped {
+				w.stop()
+			}
+		}()
+		hook := map[string]string{"delete": "cred.delete.beforeLive", "update": "cred.update.beforeLive", "add": "cred.add.beforeLive", "reload": "cred.load.beforeLive"}[pr.a]
+		var (
+			mu      sync.Mutex
+			armed   = true
+			arrived = make(chan struct{}, 1)
+			release = make(chan struct{})
+		)
+		verifhook.Set(func(name string) {
+			mu.Lock()
+			hit := armed && name == hook
+			if hit {
+				armed = false
+			}
+			mu.Unlock()
+			if hit {
+				arrived <- struct{}{}
+				<-release
+			}
+		})
+		defer verifhook.Set(nil)
+		oldFile, _ := os.ReadFile(w.path)
+		var hist []string
+		var hmu sync.Mutex
+		note := func(s string, err error) {
+			hmu.Lock()
+			hist = append(hist, fmt.Sprintf("%s -> %v", s, err))
+			hmu.Unlock()
+		}
+		var wg sync.WaitGroup
+		wg.Add(1)
+		go func() {
+			defer wg.Done()
+			switch pr.a {
+			case "delete":
+				note("A delete(bob)", w.ms.DeleteCredential("bob"))
+			case "update":
+				note("A update(bob,k2)", w.ms.UpdateCredential("bob", w.keys[2]))
+			case "add":
+				note("A add(carol,k3)", w.ms.AddCredential("carol", w.keys[3]))
+			case "reload":
+				// the operator's file drops bob
+				writeStore(w.path, map[string][]byte{"alice": w.keys[0]})
+				note("A reload(file without bob)", w.ms.LoadFromFile())
+			}
+		}()
+		reached := false
+		if svxPoll(10*time.Second, func() bool {
+			select {
+			case <-arrived:
+				return true
+			default:
+				return false
+			}
+		}) {
+			reached = true
+		}
+		bDone := make(chan struct{})
+		wg.Add(1)
+		go func() {
+			defer wg.Done()
+			defer close(bDone)
+			switch pr.b {
+			case "add-same":
+				note("B add(bob,k1)", w.ms.AddCredential("bob", w.keys[1]))
+			case "reload-old":
+				os.WriteFile(w.path, oldFile, 0o644)
+				// touch the content so that an unchanged-content shortcut cannot skip it
+				os.WriteFile(w.path, append(append([]byte{}, oldFile...), '\n'), 0o644)
+				note("B reload(file with bob)", w.ms.LoadFromFile())
+			case "update-other":
+				note("B update(bob,k3)", w.ms.UpdateCredential("bob", w.keys[3]))
+			case "delete":
+				who := "bob"
+				if pr.a == "add" {
+					who = "carol"
+				}
+				note("B delete("+who+")", w.ms.DeleteCredential(who))
+			case "update":
+				who := "bob"
+				if pr.a == "add" {
+					who = "carol"
+				}
+				note("B update("+who+",k2)", w.ms.UpdateCredential(who, w.keys[2]))
+			}
+		}()
+		inside := false
+		if reached {
+			pause := time.Duration(r.Pick(1, 5, 30)) * time.Millisecond
+			t := time.NewTimer(pause)
+			select {
+			case <-bDone:
+				inside = true
+			case <-t.C:
+			}
+			t.Stop()
+		}
+		close(release)
+		wg.Wait()
+		viol := func(kind, format string, a ...any) {
+			rec.Violate("opwindow", i, core.Sig("kind", kind, "part", "opwindow", "a", pr.a, "b", pr.b), map[string]any{"mode": w.mode, "history": hist, "b_finished_inside_window": inside}, format, a...)
+		}
+		if k, msg := w.compareViews(false); k != "" {
+			viol(k, "%s parked before publishing while %s ran: %s", pr.a, pr.b, msg)
+			return
+		}
+		w.stop()
+		stopped = true
+		if pr.a != "reload" && pr.b != "reload-old" {
+			// (after an operator edit the file is the operator's; otherwise it must hold what the API lists)
+			if k, msg := w.compareViews(true); k != "" {
+				viol(k, "after stop: %s", msg)
+				return
+			}
+		}
+		if !reached {
+			rec.Inconclusive("hook-not-reached:" + hook)
+			return
+		}
+		rec.Class("A=%s/B=%s/mode=%s/inside=%v", pr.a, pr.b, w.mode, inside)
+	})
+}
+
+// svxPoll polls f in real time.
+func svxPoll(max time.Duration, f func() bool) bool {
+	deadline := time.Now().Add(max)
+	for {
+		if f() {
+			return true
+		}
+		if time.Now().After(deadline) {
+			return false
+		}
+		time.Sleep(200 * time.Microsecond)
+	}
+}
